@@ -23,6 +23,9 @@ type Flow[S any] struct {
 	Dead func() S
 	// IsDead reports bottom.
 	IsDead func(s S) bool
+	// Split (optional) refines the state by the outcome of an if-condition: it returns the
+	// states under which the then- and else-branch are entered.
+	Split func(cond ast.Expr, in S) (S, S, bool)
 
 	loops []*loopCtx[S]
 }
@@ -154,10 +157,19 @@ func (f *Flow[S]) stmt(st ast.Stmt, in S, label string) S {
 	case *ast.IfStmt:
 		s := f.stmt(x.Init, in, "")
 		s = f.Expr(x.Cond, s)
-		thenOut := f.block(x.Body.List, s)
-		elseOut := s
-		if x.Else != nil {
-			elseOut = f.stmt(x.Else, s, "")
+		thenIn, elseIn := s, s
+		if f.Split != nil {
+			if a, b, ok := f.Split(x.Cond, s); ok {
+				thenIn, elseIn = a, b
+			}
+		}
+		thenOut := f.Dead()
+		if !f.IsDead(thenIn) {
+			thenOut = f.block(x.Body.List, thenIn)
+		}
+		elseOut := elseIn
+		if x.Else != nil && !f.IsDead(elseIn) {
+			elseOut = f.stmt(x.Else, elseIn, "")
 		}
 		return f.joinAll(f.Dead(), []S{thenOut, elseOut})
 	case *ast.ForStmt:
